@@ -289,6 +289,20 @@ def check_c06(tier, seed):
     results2, tr2, evs2 = run_group(groups2, env2, True, "c06b", nproc=8)
     rep.add_trace(tr2)
     report_bad(rep, tr2, groups2, evs2, C06_REASONS)
+    # the same templates with the EMPTY set supplied for every reported query (a wallet that holds nothing more): a set
+    # was supplied, so the query is answered and the template closes all the same (values are not judged here)
+    env3 = copy.deepcopy(env)
+    for nm in env3["inputs"]:
+        env3["inputs"][nm]["utxos"] = []
+    rng3 = random.Random(seed + 3)
+    sample3 = list(groups)
+    rng3.shuffle(sample3)
+    sample3 = sample3[:1200 if quick else 12000]
+    results3, tr3, evs3 = run_group(sample3, env3, False, "c06c", nproc=8)
+    rep.add_trace(tr3)
+    rep.extra["templates_closed_over_empty_sets"] = len(sample3)
+    report_bad(rep, tr3, sample3, evs3, {"residual", "unreported-query", "unreported-param"},
+               lambda sig, b, g, e: sig + "|empty-set")
     closed = 0
     for i, e in enumerate(evs):
         if any(ev["ev"] == "Final" and ev.get("outcome") == "ok" for ev in e):
